@@ -253,6 +253,8 @@ pub enum Init {
     /// persistent engine whose index (capacity 3) is full and holds one tombstone, so the next
     /// insert of a new id takes the compact-and-retry path
     FullTomb,
+    /// the same full-with-tombstone index WITHOUT persistence (no snapshot lock exists there)
+    FullTombMem,
     /// persistent engine that takes an automatic snapshot after every write (interval 1)
     SnapEvery,
 }
@@ -283,7 +285,7 @@ pub fn build(init: Init, persistent: bool, learned: bool) -> World {
         hot_tier_max_size: 4,
         hot_tier_hard_limit: 8,
         hot_tier_max_age: Duration::from_secs(3600),
-        hnsw_max_elements: if init == Init::FullTomb { 3 } else { 64 },
+        hnsw_max_elements: if init == Init::FullTomb || init == Init::FullTombMem { 3 } else { 64 },
         embedding_dimension: 2,
         hnsw_distance: DistanceMetric::Euclidean,
         data_dir: dir.as_ref().map(|d| d.path.join("data").to_string_lossy().to_string()),
@@ -303,7 +305,7 @@ pub fn build(init: Init, persistent: bool, learned: bool) -> World {
             te.insert(1, payload(101), wmeta(101)).unwrap();
             te.insert(2, payload(102), wmeta(102)).unwrap();
         }
-        Init::FullTomb => {
+        Init::FullTomb | Init::FullTombMem => {
             te.insert(1, payload(100), wmeta(100)).unwrap();
             te.insert(2, payload(102), wmeta(102)).unwrap();
             te.insert(1, payload(101), wmeta(101)).unwrap();
